@@ -208,7 +208,14 @@ def main():
     if only:
         import re
         cases = [c for c in cases if re.search(only, c.tag)]
-    return runner.run_property('C06', cases, tier=tier, chunk=int(os.environ.get('VERIF_CHUNK', '30')),
+    import re
+    if tier == 'quick':
+        # the quick tier leaves the slowest duplicates to the thorough tier: signed 64-bit left shift and the 64-bit shift-assign forms go
+        # through the same $shiftLeft64 / $shiftRightInt64 / $shiftRightUint64 helpers as the cases kept; one of each bounded $div64 pair stays
+        skip = re.compile(r'^(shl_int64_by_|assign_sh[lr]_u?int64$|quo_int64_vv_bounded|rem_uint64_vv_bounded)')
+        cases = [c for c in cases if not skip.match(c.tag)]
+    heavy = re.compile(r'^(sh[lr]_u?int64_by_|assign_sh[lr]_u?int64$|(quo|rem)_u?int64_vv_bounded|mul_u?int64_vv)')
+    return runner.run_property('C06', cases, tier=tier, chunk=int(os.environ.get('VERIF_CHUNK', '24')), heavy=lambda c: bool(heavy.match(c.tag)),
                                title='operator table of the Go specification vs symbolic execution of the emitted JavaScript',
                                bounds={'integers': 'all operand values, full width (no bound)',
                                        'shift counts': 'all values; counts < 32 are case-split by the engine (one path per count), larger ones stay symbolic',
